@@ -11,7 +11,8 @@ LEVEL = "exploration"
 RULE = (
     "cases: atom tables derived from mmCIF and PDB text (independent emitter) that fit PDB limits, and tables beyond them: multi-"
     "character chain ids, residue numbers above 9999, serials above 99999, insertion codes, more than 62 chains, more than 9999 "
-    "residues in a chain, more than 99999 atoms (thorough), plus corpus assembly files (4gqj-assembly1 has chains A-2/B-2). "
+    "residues in a chain, more than 99999 atoms (thorough), residues whose records are not contiguous, PDB-format frames edited "
+    "beyond the limits after parsing, plus corpus assembly files (4gqj-assembly1 has chains A-2/B-2). "
     "fit_to_pdb / can_write_pdb are monitored: result within limits, atoms in order with all other fields unchanged, chain and "
     "residue renaming one-to-one and grouping-preserving, ValueError iff an independent feasibility test says no fit exists, "
     "fitting tables returned unchanged, fitted table survives write_pdb -> parse_pdb_atoms. Non-trivial = the table does not fit "
@@ -188,6 +189,9 @@ def run_case(case, rec):
         rng = random.Random(f"{seed}:C10:{case['i']}")
         rows = gentab.random_table(rng, nmodels=rng.choice([1, 1, 2]), wide=False)
         mode = rng.choice(["fits-cif", "fits-pdb", "beyond", "beyond", "beyond"])
+        if case["i"] % 3 == 2:
+            # residues whose records are not contiguous (conformer blocks, atoms appended after a later residue)
+            ctx["scattered-residues"] = gentab.scatter_residue_atoms(rng, rows)
         if mode == "beyond":
             ctx["ways"] = beyond(rng, rows)
             src = "mmCIF"
